@@ -265,6 +265,29 @@ def equal_edges(bv, pred, holds=True):
             out.append((a, b))
         elif heads == {"std::cmp::PartialEq::ne"} and tr != holds:
             out.append((a, b))
+    # `opt.is_some_and(|x| x == y)` after desugaring: the tested boolean merges the constant false (nothing to compare) with
+    # the comparison.  On its true edge the equality holds; its false edge is "absent or different".
+    for a in sorted(bv.reach0):
+        t = bv.blocks[a]["t"]
+        if t["k"] != "switch" or bv.switch_subject(a) is not None or len(bv.succ[a]) < 2 or bv.crate.types[t["ot"]]["s"] != "bool":
+            continue
+        term = bv.trace_op(t["o"])
+        neg = False
+        while term[0] == "unop" and term[1] == "Not":
+            term = term[2]
+            neg = not neg
+        xs = alts(term)
+        calls = [x for x in xs if x[0] == "call" and x[1] == "std::cmp::PartialEq::eq" and pred(x)]
+        consts = [x for x in xs if x[0] == "const"]
+        if not calls or not consts or len(calls) + len(consts) != len(xs) or any(term_const(bv.crate, x) not in (0, False) for x in consts):
+            continue
+        for b in bv.succ[a]:
+            labs = bv.edge_label.get((a, b), [])
+            is_true = any(l_ == "otherwise" or (isinstance(l_, int) and l_ != 0) for l_ in labs)
+            if neg:
+                is_true = not is_true
+            if is_true == holds and (a, b) not in out:
+                out.append((a, b))
     return out
 
 
